@@ -282,9 +282,20 @@ def run_jobs(jobs: list[dict], parallel: int = 16) -> list[TlcResult]:
     def one(j):
         j = dict(j)
         mod = j.pop("module")
-        return run_tlc(mod, **j)
+        try:
+            return run_tlc(mod, **j)
+        except MachineryError as ex:
+            if "TLC failed rc=-9" in str(ex) or "TLC failed rc=137" in str(ex):
+                return None               # killed from outside (memory pressure while 16 JVMs run side by side): retried alone below
+            raise
     with cf.ThreadPoolExecutor(max_workers=parallel) as ex:
-        return list(ex.map(one, jobs))
+        out = list(ex.map(one, jobs))
+    for i, r in enumerate(out):
+        if r is None:
+            j = dict(jobs[i])
+            mod = j.pop("module")
+            out[i] = run_tlc(mod, **j)    # a second kill is a machinery failure (exit 2)
+    return out
 
 
 def shard_jobs(module: str, cfg: dict, nshards: int, which=None, shard_const="Shard",
